@@ -32,7 +32,7 @@ RULE = (
     "that redirects is re-run on further bindings (https+port+/app, subdomain, ws with websocket rules, "
     "host_matching, default_subdomain, bind_to_environ with host / script / path / query taken from a WSGI environ) "
     "and query forms (none / str / dict / MultiDict, through bind() or match()): all 26 combinations for the map's "
-    "first configuration (thorough: every configuration of maps <= 2 rules), otherwise the plain one plus one "
+    "first configuration (thorough: every configuration of maps <= 2 rules and of all canonicalisation-group maps), otherwise the plain one plus one "
     "further binding per configuration in turn; each redirect is followed as a server would (percent-decode once, "
     "query string forwarded) until it stops. evaluation = one (map, config, order, binding, path, method, query "
     "form) matched and, if it redirected, checked and followed (n_chains); non-trivial = distinct ones that redirected."
@@ -401,9 +401,8 @@ def check_map(combo, R, tier):
     has_canon = any(sp["defaults"] or sp["alias"] for sp in base)
     any_methods = any(sp["methods"] is not None for sp in base)
     methods = ("GET", "POST") if any_methods else ("GET",)
-    # websocket binding: not for POST rules (werkzeug refuses them) and not for rules inside a factory (the factory
-    # forgets websocket=True: finding C03-factory-drops-rule-options)
-    ws_ok = not any((sp["methods"] and "POST" in sp["methods"]) or sp["wrap"] for sp in base)
+    # websocket binding: not for POST rules (werkzeug refuses them)
+    ws_ok = not any(sp["methods"] and "POST" in sp["methods"] for sp in base)
     paths = rr.path_set(base, EXTRA, lean=True)
     seenp = set(paths)
     for h in HOSTILE:
@@ -443,7 +442,7 @@ def check_map(combo, R, tier):
                     return bind(ads[v], bi, qi, path, method)
 
                 cfg = (names, tuple(order), strict, merge, rd)
-                full = first_combo or (tier == "thorough" and k <= 2)
+                full = first_combo or (tier == "thorough" and (k <= 2 or is_group))
                 first_combo = False
                 ad0 = adapter(0, 0)
                 redirecting = []
